@@ -11,18 +11,42 @@ from vlib.core import model_equal
 
 NAMES = ["a", "b", "c"]
 
-# equality-trap pool; every decode creates fresh objects
-POOL = [
-    lambda: 0, lambda: 1, lambda: True, lambda: 1.0, lambda: 2, lambda: float("nan"), lambda: "a", lambda: None,
-    lambda: [1], lambda: [1.0], lambda: (1,), lambda: {"k": 1}, lambda: {"k": 1.0}, lambda: dt.date(2020, 1, 1),
-    lambda: dt.datetime(2020, 1, 1), lambda: [1, [2]], lambda: "b", lambda: Fraction(1, 1), lambda: b"a",
-    lambda: {"k": 1, "j": 2}, lambda: {"j": 2, "k": 1}, lambda: 3, lambda: [], lambda: "",
+# equality-trap pool, grouped in families so that consecutive assignments often meet values that are
+# equal-but-not-identical or differ subtly; every decode creates fresh objects
+FAMILIES = [
+    # numbers
+    [lambda: 0, lambda: 1, lambda: True, lambda: 1.0, lambda: 2, lambda: float("nan"), lambda: Fraction(1, 1),
+     lambda: 3, lambda: False, lambda: 0.0],
+    # strings / None / bytes
+    [lambda: "a", lambda: "b", lambda: "", lambda: None, lambda: b"a", lambda: "a" * 1],
+    # sequences
+    [lambda: [1], lambda: [1.0], lambda: (1,), lambda: [1, [2]], lambda: [], lambda: [None], lambda: [1, None],
+     lambda: (1, 2), lambda: [1, 2]],
+    # mappings
+    [lambda: {"k": 1}, lambda: {"k": 1.0}, lambda: {"k": 1, "j": 2}, lambda: {"j": 2, "k": 1},
+     lambda: {"k": None, "j": 2}, lambda: {"m": 7, "j": 2}, lambda: {"k": None}, lambda: {"m": None},
+     lambda: {"m": 1}, lambda: {}, lambda: {"k": [1]}, lambda: {"k": [1.0]}],
+    # dates
+    [lambda: dt.date(2020, 1, 1), lambda: dt.datetime(2020, 1, 1), lambda: dt.date(2020, 1, 2),
+     lambda: dt.datetime(2020, 1, 1, 0, 0, 0, 1)],
 ]
+POOL = [f for fam in FAMILIES for f in fam]
 NPOOL = len(POOL)
+_FAM_RANGES = []
+_k = 0
+for _fam in FAMILIES:
+    _FAM_RANGES.append((_k, _k + len(_fam) - 1))
+    _k += len(_fam)
 
 
 def pool_value(i):
     return POOL[i % NPOOL]()
+
+
+def val_strategy(fam):
+    """Value indices, 2/3 of them from the case's preferred family."""
+    lo, hi = _FAM_RANGES[fam % len(FAMILIES)]
+    return st.one_of(st.integers(lo, hi), st.integers(lo, hi), st.integers(0, NPOOL - 1))
 
 
 def equal(a, b):
@@ -42,11 +66,9 @@ def equal(a, b):
 # ---------------------------------------------------------------------------
 # strategies
 
-_val = st.integers(0, NPOOL - 1)
-
-
 @st.composite
-def watcher_spec(draw, allow_queued=True, allow_slot=True, allow_class=True, multi=True):
+def watcher_spec(draw, allow_queued=True, allow_slot=True, allow_class=True, multi=True, fam=0):
+    _val = val_strategy(fam)
     what = "value"
     if allow_slot and draw(st.integers(0, 5)) == 0:
         what = draw(st.sampled_from(["bounds", "doc"]))
@@ -95,6 +117,7 @@ class World:
         self.script_vals = {wid: [pool_value(v) for _n, v in sp["script"]] for wid, sp in enumerate(specs)}
         self.faults = {}     # wid -> set of invocation numbers (1-based) at which the callback raises
         self.calls = {}      # wid -> invocation count
+        self.cbs = {}
         for wid in range(len(specs)):
             self.register(wid)
 
@@ -132,8 +155,12 @@ class World:
         spec = self.specs[wid]
         t = self.targets[spec["target"]]
         reg = t.param.watch_values if spec["mode"] == "kwargs" else t.param.watch
+        if spec.get("dup_of") is not None:
+            cb = self.cbs[spec["dup_of"]]       # the very same callback registered a second time
+        else:
+            cb = self.cbs.setdefault(wid, self.make_cb(wid))
         self.handles[wid] = reg(
-            self.make_cb(wid), [PNAMES[n] for n in spec["names"]], what=spec["what"],
+            cb, [PNAMES[n] for n in spec["names"]], what=spec["what"],
             onlychanged=spec["onlychanged"], queued=spec["queued"], precedence=spec["precedence"])
 
     def unregister(self, wid):
